@@ -72,7 +72,7 @@ def denotation(spec):
 
 
 # ---- strategies ------------------------------------------------------------------
-NUM = st.one_of(st.integers(-3, 9), st.integers(0, 2), st.integers(0, 2), st.integers(0, 4), st.tuples(st.integers(-7, 7), st.integers(2, 4)).map(lambda t: ("q", t[0], t[1])))
+NUM = st.one_of(st.integers(-3, 9), st.integers(0, 2), st.integers(0, 2), st.integers(0, 4), st.integers(-3, -1), st.tuples(st.integers(-7, 7), st.integers(2, 4)).map(lambda t: ("q", t[0], t[1])))
 STR = st.text("ab1 ,Z(", max_size=4).map(lambda s: ("s", s))
 FUN = st.integers(0, len(FUN_SOURCES) - 1).map(lambda i: ("f", i))
 
